@@ -132,6 +132,33 @@ def exclude_expr(call: ast.Call, pos: Optional[int] = None, prog: Optional[Progr
     return norm(ex)
 
 
+def exclusion_source_problems(prog: Program, f: FuncInfo) -> List[Tuple[int, str]]:
+    """The names a parameter is tested against come from the `exclude` argument alone: what is excluded for THIS binding is decided by
+    the caller (the Method, from its own context setting), not by anything looked up elsewhere (function-level metadata is shared by
+    all registrations of the function)."""
+    from ..flow import Flow
+    cfg = CFG(f, prog)
+    fl = Flow(cfg)
+    pnames = [p.arg for p in f.params]
+    if 'exclude' not in pnames:
+        return []
+    out: List[Tuple[int, str]] = []
+    from ..util import stmt_node_of
+    for x in ast.walk(f.node):
+        if isinstance(x, ast.Compare) and len(x.ops) == 1 and isinstance(x.ops[0], (ast.In, ast.NotIn)) and norm(x.left).endswith('.name'):
+            n = stmt_node_of(cfg, x)
+            if n is None:
+                continue
+            for al in fl.alts(n, x.comparators[0]):
+                v = al.expr
+                while isinstance(v, ast.Call) and dotted(v.func) in ('set', 'frozenset', 'tuple', 'list') and len(v.args) == 1:
+                    v = v.args[0]
+                if isinstance(v, ast.Name) and v.id == 'exclude' and not fl.defs_at(al.node or n, 'exclude'):
+                    continue
+                out.append((x.lineno, f'`{norm(x)}` tests the parameter name against `{norm(al.expr)[:70]}`, which is not just the `exclude` argument'))
+    return out
+
+
 def rewritten_parameters(prog: Program, f: FuncInfo) -> List[Tuple[int, str]]:
     """The parameters handed to `signature.replace(parameters=...)` are followed back through every list-building stage
     (flow.py: append loops, comprehensions, list()/filter()): each stage must pass the Parameter object on as it is.  A stage whose
@@ -204,6 +231,31 @@ def run(ck: Check, prog: Program) -> None:
         ck.finding('EXCL-AGREE', bpm.qualname, 'exclusion formulas differ', bpm.module.rel, bpm.node.lineno,
                    f'the binder keeps a parameter iff {sorted(fa)} but the documents list it iff {sorted(fb)}: a documented parameter '
                    f'would be refused (or an accepted one undocumented)')
+    # the documents list named members: exactly the parameters that CAN be passed by name (positional-or-keyword, keyword-only) —
+    # a positional-only parameter is bound by position only, *args / **kwargs have no single name
+    KINDS = ('POSITIONAL_ONLY', 'POSITIONAL_OR_KEYWORD', 'VAR_POSITIONAL', 'KEYWORD_ONLY', 'VAR_KEYWORD')
+    kept = set(KINDS)
+    undecided = False
+    for fct in sorted(x for x in fb if x.startswith('kind:')):
+        _, body_, pol_ = fct.rsplit(':', 2)[0].split(':', 1)[0], fct[len('kind:'):fct.rfind(':')], fct.endswith(':T')
+        named = {k for k in KINDS if ('.' + k) in body_ or body_.strip('[] ') == k or (k in body_.replace('VAR_' + k, '') if k in ('POSITIONAL', 'KEYWORD') else False)}
+        named = {k for k in KINDS if any(tok.strip().rsplit('.', 1)[-1] == k for tok in body_.strip('[]() ').split(','))}
+        if not named:
+            undecided = True
+            continue
+        kept &= named if pol_ else (set(KINDS) - named)
+    if undecided:
+        raise AnalysisError(f'{bpm.qualname}: parameter-kind filter not understood: {sorted(x for x in fb if x.startswith("kind:"))}')
+    ok_k = kept == {'POSITIONAL_OR_KEYWORD', 'KEYWORD_ONLY'}
+    ck.ob('EXCL-AGREE', 'the documents list exactly the parameters that can be passed by name (positional-or-keyword, keyword-only)', ok_k,
+          sample={'kinds_documented': sorted(kept)})
+    if not ok_k:
+        extra = sorted(kept - {'POSITIONAL_OR_KEYWORD', 'KEYWORD_ONLY'})
+        missing = sorted({'POSITIONAL_OR_KEYWORD', 'KEYWORD_ONLY'} - kept)
+        ck.finding('EXCL-AGREE', bpm.qualname, f'documented parameter kinds {sorted(kept)}', bpm.module.rel, bpm.node.lineno,
+                   f'the params model lists parameters of kind {sorted(kept)}'
+                   + (f': {extra} cannot be given by name, so a request built from the published names is refused with -32602' if extra else '')
+                   + (f'; {missing} can be given by name but are not listed' if missing else ''))
     excluded_names_not_lazy(ck, prog)
     # exclude expressions at the call sites
     sites: List[Tuple[FuncInfo, ast.Call, str]] = []
@@ -369,7 +421,41 @@ def run(ck: Check, prog: Program) -> None:
     _sig_source(ck, prog)
 
 
+def _signature_reads(ck: Check, prog: Program) -> None:
+    """SIG-SOURCE: binder and documenters ask `inspect.signature` about the SAME object — the callable they were handed, as it is.
+    One side unwrapping decorators, following `__wrapped__`, or looking at `__func__` sees another signature than the other side."""
+    from ..flow import Flow
+    from ..util import stmt_node_of
+    sites = []
+    for f in prog.iter_funcs():
+        if not f.module.name.startswith(('pjrpc.server.validators', 'pjrpc.server.specs.extractors')) or not isinstance(f.node, (ast.FunctionDef, ast.AsyncFunctionDef)):
+            continue
+        calls = [x for x in walk_own(f.node) if isinstance(x, ast.Call) and dotted(x.func) in ('inspect.signature', 'signature') and x.args]
+        if not calls:
+            continue
+        cfg = CFG(f, prog)
+        fl = Flow(cfg)
+        pnames = {p.arg for p in f.params}
+        for c in calls:
+            n = stmt_node_of(cfg, c)
+            forms = set()
+            for al in (fl.alts(n, c.args[0]) if n is not None else []):
+                v = al.expr
+                forms.add('the callable as given' if isinstance(v, ast.Name) and v.id in pnames and not fl.defs_at(al.node or n, v.id) else norm(v)[:60])
+            sites.append((f, c, forms))
+    ck.require('SIG-SOURCE', 'inspect.signature call sites in the validators / schema extractors', len(sites), 2)
+    bad = [(f, c, forms) for f, c, forms in sites if forms != {'the callable as given'}]
+    ck.ob('SIG-SOURCE', f'{len(sites)} inspect.signature call sites of the binder and the documenters read the callable they were given, unchanged', not bad,
+          sample={'sites': [f'{short(f.qualname)}: {sorted(forms)}' for f, c, forms in sites]})
+    for f, c, forms in bad:
+        ck.finding('SIG-SOURCE', f.qualname, f'signature of {sorted(forms)[0][:40]}', f.module.rel, c.lineno,
+                   f'`{norm(c)[:80]}` reads the signature of {sorted(forms)} while the other side reads the callable as given: for a decorated method '
+                   f'that declares `__signature__` (or any wrapper) the documented and the bound parameters differ — a conforming request '
+                   f'is refused with -32602 or an undocumented name is accepted')
+
+
 def _sig_source(ck: Check, prog: Program) -> None:
+    _signature_reads(ck, prog)
     # what the generators document: <method>.method
     doc_attr = set()
     for cq in (OPENAPI, OPENRPC):
@@ -412,6 +498,11 @@ def _sig_source(ck: Check, prog: Program) -> None:
 
 
 MUTANTS = [
+    dict(name='binder-reads-the-unwrapped-signature', file='pjrpc/server/validators/base.py',
+         find='        signature = inspect.signature(method)\n', replace='        signature = inspect.signature(inspect.unwrap(method))\n', expect='SIG-SOURCE'),
+    dict(name='documenter-keeps-positional-only-parameters', file='pjrpc/server/specs/extractors/pydantic.py',
+         find='if param.kind in [inspect.Parameter.POSITIONAL_OR_KEYWORD, inspect.Parameter.KEYWORD_ONLY]:',
+         replace='if param.kind not in (inspect.Parameter.VAR_POSITIONAL, inspect.Parameter.VAR_KEYWORD):', expect='EXCL-AGREE'),
     dict(name='exclusion-names-held-as-a-lazy-filter', file='pjrpc/server/specs/extractors/pydantic.py', nth=0,
          find='        exclude = set(exclude)\n', replace='        exclude = filter(None, exclude)\n', expect='EXCL-AGREE'),
     dict(name='openapi-drops-exclude', file='pjrpc/server/specs/openapi.py',
